@@ -714,9 +714,11 @@ Theorem op_getitems_illformed_refuted :
   exists x ix, regular_its (ndim x) (items ix) = false /\ ~ wf x /\
     getitem (map_data (uop_fun (UAdd 5)) x) ix <> map_res (uop_fun (UAdd 5)) (getitem x ix).
 Proof.
-  exists {| shape := [3]; dat := N1 [1]; s0 := 0; fsn := 1000; fsd := 1; chan := LOne 70; meta := LOne 90 |},
-         {| sole := true; items := [IList [2]] |}.
-  split; [vm_compute; reflexivity|]. split; [unfold wf; cbn; lia|]. vm_compute. discriminate.
+  (* (witness changed with fix-C11idx: x[[2]] on a 1-D record is now refused before the data are looked at) *)
+  exists {| shape := [2; 3]; dat := N2 [[1]]; s0 := 0; fsn := 1000; fsd := 1; chan := LMany [70; 71]; meta := LOne 90 |},
+         (tuple [IInt 1; IInt 2]).
+  split; [vm_compute; reflexivity|]. split; [|vm_compute; discriminate].
+  unfold wf, rect. cbn. intros (_ & (H & _) & _). discriminate H.
 Qed.
 
 Example op_getitems_ex :
